@@ -95,6 +95,24 @@ func levelsExec(ops []string) (dops []string, res []string) {
 		}
 		return name + ":missing"
 	}
+	// C16 at every place a filter is built (flush, compaction, recovery): no table's filter denies a key of the table
+	filtersOK := func(when string) {
+		var bad []string
+		for _, t := range lm.Tables() {
+			for _, u := range t.Denied {
+				bad = append(bad, fmt.Sprintf("%s denies %q", tableName(t.Name), u))
+			}
+		}
+		dops = append(dops, "expectok no filter denies a key of its table, "+when)
+		if len(bad) == 0 {
+			res = append(res, "ok")
+		} else {
+			if len(bad) > 4 {
+				bad = bad[:4]
+			}
+			res = append(res, "SPEC-VIOLATION: bloom filter without the keys it was built from ("+when+"): "+strings.Join(bad, "; "))
+		}
+	}
 	var l0, ratio, bs int
 	var low, maxLow uint64
 	for _, op := range ops {
@@ -116,6 +134,7 @@ func levelsExec(ops []string) (dops []string, res []string) {
 			name := events[0].out
 			dops = append(dops, fmt.Sprintf("flush %s %s", name, t[1]))
 			res = append(res, "~"+content(name))
+			filtersOK("after a flush")
 		case "compact":
 			events = nil
 			lm.CheckAndCompact()
@@ -125,6 +144,9 @@ func levelsExec(ops []string) (dops []string, res []string) {
 				}
 				dops = append(dops, fmt.Sprintf("compact %s %s", e.out, strings.Join(e.ins, ",")))
 				res = append(res, "~"+content(e.out))
+			}
+			if len(events) > 0 {
+				filtersOK("after a compaction")
 			}
 		case "get":
 			ts, _ := strconv.ParseUint(t[2], 10, 64)
@@ -147,6 +169,7 @@ func levelsExec(ops []string) (dops []string, res []string) {
 			mv := lm.Recover()
 			dops = append(dops, op)
 			res = append(res, strconv.FormatInt(mv, 10))
+			filtersOK("after a recovery")
 		case "tables":
 			tabs := lm.Tables()
 			var ss []string
@@ -287,6 +310,35 @@ func levelsGen(r *rand.Rand, n int, small bool) []Case {
 			queries()
 			tags["deep-levels-boundary-tombstone"] = true
 			steps = 0
+		}
+		if c%8 == 7 {
+			// user keys that agree up to their first '@' (or are a prefix of one another) side by side in one table, the table
+			// flushed, compacted and recovered: every filter has to know every one of them
+			users = [][]string{{"a@", "a@1", "a@b@7"}, {"k@009", "k@10", "k@9", "k"}, {"a", "a@1", "a!", "ab"}, {"user:1", "user:1@x", "user:1@y"}}[r.Intn(4)]
+			ops[0] = fmt.Sprintf("lm %d %d %d %d", 1+r.Intn(2), 1+r.Intn(3), []int{1, 20, 200, 4096}[r.Intn(4)], low)
+			for rd := 0; rd < 2+r.Intn(3); rd++ {
+				var pairs [][2]any
+				for _, u := range users {
+					if r.Intn(4) > 0 {
+						pairs = append(pairs, [2]any{u, 1 + rd})
+					}
+				}
+				if len(pairs) == 0 {
+					pairs = append(pairs, [2]any{users[0], 1 + rd})
+				}
+				ops = append(ops, "flush "+sortedEntries(pairs))
+				switch r.Intn(3) {
+				case 0:
+					ops = append(ops, "compact")
+				case 1:
+					ops = append(ops, fmt.Sprintf("recover %d", low))
+				}
+			}
+			ops = append(ops, fmt.Sprintf("recover %d", low))
+			maxTs = 6
+			queries()
+			tags["keys-agreeing-up-to-first-@"] = true
+			steps = 1 + r.Intn(3)
 		}
 		if c%8 == 6 {
 			// table names are reused (0-0, 0-1, … again once a compaction has emptied L0): rounds of same-shaped tables
